@@ -50,7 +50,8 @@ def insert_ignorable(lines, rng, ignore_names):
         r = rng.random()
         if r < 0.10:
             out.append(rng.choice(["REMARK 465 ignorable", "ANISOU    1  N   ALA A   1     2406   1892   1614    198    519   -328",
-                                   "CONECT  413  412  414", "HETNAM     KNI ligand", "SIGATM", "CRYST1   50.000   50.000   50.000"]))
+                                   "CONECT  413  412  414", "HETNAM     KNI ligand", "SIGATM", "CRYST1   50.000   50.000   50.000", "ENDMDL", "END",
+                                   "LINK", "SSBOND   1 CYS A    1    CYS A    2"]))
         elif r < 0.16:
             n += 1
             nm = rng.choice(ignore_names)
